@@ -3,6 +3,8 @@ import Abyss.Props.C03
 import Abyss.Props.RaBufP
 import Abyss.Props.GenCorollaries
 import Abyss.Props.GenCorollaries2
+import Abyss.Props.GenBudget
+#print axioms Abyss.C07_generated_bucket_independent_budget
 #print axioms Abyss.C02_generated_reopen
 #print axioms Abyss.C07_generated_bucket_independent
 #print axioms Abyss.openMap_reopen
